@@ -214,6 +214,33 @@ pub fn execute_in_thread<S: Scenario>(env: &Envelope<S::Case>, timeout: Duration
     }
 }
 
+/// Process-global lazy state (lazy_regex in debversion, regex caches, idna tables ...) is
+/// initialised by whichever run touches it first, and initialising it draws RandomState keys in
+/// that run's thread. Warm it up before any real run so that a run's hash order does not depend
+/// on which runs happened to precede it in the same process.
+fn warm_up<S: Scenario>() {
+    let h = std::thread::Builder::new().stack_size(8 << 20).spawn(|| {
+        hashseed::set_thread_hash_seed(0);
+        let _ = std::panic::catch_unwind(|| {
+            use std::str::FromStr;
+            let _ = debversion::Version::from_str("1:2.0~rc1-1+b1");
+            let _ = url::Url::parse("https://example.com/a%20b?x=y#z");
+            let _ = chrono::DateTime::parse_from_rfc2822("Sat, 14 Dec 2024 10:15:30 +0000");
+            let _ = chrono::NaiveDate::parse_from_str("2024-12-14", "%Y-%m-%d");
+            let _ = debian_control::vcs::ParsedVcs::from_str("https://example.com/x -b main [sub]");
+            let _ = debian_control::lossy::Relations::from_str("a (>= 1:1.0) [amd64] <!nocheck>, b | c");
+            let _ = debian_control::lossless::relations::Relations::from_str("a (>= 1:1.0) [amd64] <!nocheck>, b | c").map(|r| r.to_string());
+        });
+        for i in 0..40u64 {
+            let env = make_envelope::<S>(0x5741_524d, Tier::Quick, i);
+            let _ = execute_here::<S>(&env.case);
+        }
+    });
+    if let Ok(h) = h {
+        let _ = h.join();
+    }
+}
+
 fn make_envelope<S: Scenario>(seed: u64, tier: Tier, k: u64) -> Envelope<S::Case> {
     let mut rng = Rng::new(mix(seed, S::ID, k));
     let hash_seed = rng.next_u64();
@@ -392,6 +419,7 @@ pub fn worker_main<S: Scenario>(args: &[String]) -> i32 {
         eprintln!("HARNESS-ERROR {e}");
         return 2;
     }
+    warm_up::<S>();
     let stdout = std::io::stdout();
     let mut done = WorkerDone::default();
     let mut states: HashSet<u64> = HashSet::new();
@@ -503,6 +531,7 @@ pub fn exec_main<S: Scenario>(args: &[String]) -> i32 {
             return 2;
         }
     };
+    warm_up::<S>();
     probe::set_run(0);
     match execute_in_thread::<S>(&env, Duration::from_secs(25)) {
         ThreadResult::Hang => 3,
